@@ -41,11 +41,9 @@ def create_divs_from_beats(note_array: np.ndarray):
     onset_fractions = [
         Fraction(float(ix)).limit_denominator(256) for ix in note_array["onset_beat"]
     ]
+    # the grid has to hold the onsets as well as the durations
     divs = np.lcm.reduce(
-        [
-            Fraction(float(ix)).limit_denominator(256).denominator
-            for ix in np.unique(note_array["duration_beat"])
-        ]
+        [r.denominator for r in duration_fractions + onset_fractions]
     )
     onset_divs = list(
         map(lambda r: int(divs * r.numerator / r.denominator), onset_fractions)
